@@ -1,6 +1,7 @@
 package harness
 
 import (
+	"encoding/base64"
 	"fmt"
 	"regexp"
 	"sort"
@@ -551,36 +552,53 @@ func init() {
 		c.Res.Distinct = int64(n + 1)
 		c.Note("2 (thorough 3) threads x 1-2 Yeast() calls within one virtual millisecond and across a millisecond boundary, every interleaving of the atomic steps up to the bound; 200 sequential calls")
 	})
-	register("C20", "conc/base64id", false, func(c *Ctx) {
-		c.Explore("base64id: 3 threads x 2 calls", Pick(c, 3, 10), func(x *vsched.Exec) {
-			var got []string
-			for t := 0; t < 3; t++ {
-				vsched.GoNamed(fmt.Sprintf("g%d", t), func() {
-					for i := 0; i < 2; i++ {
-						id, err := utils.Base64Id().GenerateId()
-						if err != nil {
-							x.Fail("id-error[base64id]: %v", err)
+	for _, prop := range []string{"C20", "C04"} {
+		register(prop, "conc/base64id", false, func(c *Ctx) {
+			c.Explore("base64id: 3 threads x 2 calls", Pick(c, 3, 10), func(x *vsched.Exec) {
+				var got []string
+				for t := 0; t < 3; t++ {
+					vsched.GoNamed(fmt.Sprintf("g%d", t), func() {
+						for i := 0; i < 2; i++ {
+							id, err := utils.Base64Id().GenerateId()
+							if err != nil {
+								x.Fail("id-error[base64id]: %v", err)
+							}
+							got = append(got, id)
 						}
-						got = append(got, id)
+					})
+				}
+				x.Run(time.Second)
+				seen := map[string]bool{}
+				for _, g := range got {
+					if seen[g] {
+						x.Fail("duplicate-id[base64id]: %q twice", g)
 					}
-				})
-			}
-			x.Run(time.Second)
-			seen := map[string]bool{}
-			for _, g := range got {
-				if seen[g] {
-					x.Fail("duplicate-id[base64id]: %q twice", g)
+					seen[g] = true
+					if !urlSafe.MatchString(g) || strings.Contains(g, ".") {
+						x.Fail("id-charset[base64id]: %q", g)
+					}
 				}
-				seen[g] = true
-				if !urlSafe.MatchString(g) || strings.Contains(g, ".") {
-					x.Fail("id-charset[base64id]: %q", g)
+				// the part of the id that makes reuse impossible is the sequence number folded into it
+				// (last 8 of the 18 decoded bytes): it must differ between any two ids, whatever the random part
+				seqs := map[string]bool{}
+				for _, g := range got {
+					raw, err := base64.RawURLEncoding.DecodeString(g)
+					if err != nil || len(raw) != 18 {
+						x.Fail("id-shape[base64id]: %q does not decode to 18 bytes", g)
+						continue
+					}
+					k := string(raw[10:])
+					if seqs[k] {
+						x.Fail("duplicate-sequence[base64id]: two ids generated concurrently carry the same sequence number (uniqueness would rest on the random bytes alone)")
+					}
+					seqs[k] = true
 				}
-			}
-			if len(got) != 6 {
-				x.Fail("deadlock[base64id]: %d of 6 calls returned", len(got))
-			}
-			x.Outcome = fmt.Sprint(len(seen))
+				if len(got) != 6 {
+					x.Fail("deadlock[base64id]: %d of 6 calls returned", len(got))
+				}
+				x.Outcome = fmt.Sprint(len(seen))
+			})
+			c.Res.Distinct = 1
 		})
-		c.Res.Distinct = 1
-	})
+	}
 }
